@@ -465,7 +465,10 @@ type ConditionImpl struct {
 	schema       record.Schemas
 	rpn          []*RPNElement
 	rpnStack     []*RPNElement
-	opt          hybridqp.Options
+	// bitmapPos[i]: how many comparisons were pending on rpnStack when the bitmap i received its result, i.e. how many
+	// operands of the expression lie below that result
+	bitmapPos []int
+	opt       hybridqp.Options
 }
 
 func NewCondition(timeCondition, condition influxql.Expr, schema record.Schemas, opt hybridqp.Options) (*ConditionImpl, error) {
@@ -680,17 +683,21 @@ func (c *ConditionImpl) filterCompoundExpr(rec *record.Record, filterBitmap *bit
 	// idx indicates the bitmap position in use.
 	var idx int
 	var err error
+	if cap(c.bitmapPos) < len(filterBitmap.Bitmap) {
+		c.bitmapPos = make([]int, len(filterBitmap.Bitmap))
+	}
+	c.bitmapPos = c.bitmapPos[:len(filterBitmap.Bitmap)]
 	for _, elem := range c.rpn {
 		switch elem.op {
 		case rpn.InRange:
 			c.rpnStack = append(c.rpnStack, elem)
 		case rpn.AND:
-			idx, err = c.filterForAnd(rec, filterBitmap, idx)
+			idx, err = c.filterForAnd(rec, filterBitmap, idx, c.pendingOperands(filterBitmap, idx))
 			if err != nil {
 				return err
 			}
 		case rpn.OR:
-			idx, err = c.filterForOr(rec, filterBitmap, idx)
+			idx, err = c.filterForOr(rec, filterBitmap, idx, c.pendingOperands(filterBitmap, idx))
 			if err != nil {
 				return err
 			}
@@ -704,8 +711,39 @@ func (c *ConditionImpl) filterCompoundExpr(rec *record.Record, filterBitmap *bit
 	return nil
 }
 
-func (c *ConditionImpl) filterForOr(rec *record.Record, filterBitmap *bitmap.FilterBitmap, idx int) (int, error) {
-	switch len(c.rpnStack) {
+// pendingOperands tells how many of the two operands of the operator that is being applied are comparisons still pending
+// on rpnStack (the others are results in the bitmaps). The operands of an operator are the two most recent items of the
+// expression; a pending comparison is more recent than a bitmap result only if it was pushed after that result was made.
+// Taking the pending comparisons first whenever there are two of them evaluated `a AND (b OR (c OR d))` as
+// `(a OR b) AND (c OR d)`.
+func (c *ConditionImpl) pendingOperands(filterBitmap *bitmap.FilterBitmap, idx int) int {
+	n := len(c.rpnStack)
+	live := idx
+	if len(filterBitmap.Bitmap[idx].Val) > 0 {
+		live = idx + 1
+	}
+	if live > 0 && c.bitmapPos[live-1] == n {
+		// the most recent operand is a result
+		if live > 1 && c.bitmapPos[live-2] == n {
+			return 0
+		}
+		if n >= 1 {
+			return 1
+		}
+		return 0
+	}
+	// the most recent operand is a pending comparison
+	if n >= 1 && live > 0 && c.bitmapPos[live-1] == n-1 {
+		return 1
+	}
+	if n >= 2 {
+		return 2
+	}
+	return n
+}
+
+func (c *ConditionImpl) filterForOr(rec *record.Record, filterBitmap *bitmap.FilterBitmap, idx int, pending int) (int, error) {
+	switch pending {
 	case 0:
 		if idx < 1 {
 			return 0, errno.NewError(errno.ErrRPNIsNullForOR)
@@ -738,6 +776,7 @@ func (c *ConditionImpl) filterForOr(rec *record.Record, filterBitmap *bitmap.Fil
 		c.rpnStack = c.rpnStack[:len(c.rpnStack)-1]
 		filterBitmap.Bitmap[idx].Val = filterBitmap.Bitmap[idx].Val[:0]
 		idx--
+		c.bitmapPos[idx] = len(c.rpnStack)
 	default:
 		e1, e2 := c.rpnStack[len(c.rpnStack)-1], c.rpnStack[len(c.rpnStack)-2]
 		col := rec.ColVals[e1.rg.Idx]
@@ -775,12 +814,13 @@ func (c *ConditionImpl) filterForOr(rec *record.Record, filterBitmap *bitmap.Fil
 		c.rpnStack = c.rpnStack[:len(c.rpnStack)-2]
 		filterBitmap.Bitmap[idx].Val = filterBitmap.Bitmap[idx].Val[:0]
 		idx--
+		c.bitmapPos[idx] = len(c.rpnStack)
 	}
 	return idx, nil
 }
 
-func (c *ConditionImpl) filterForAnd(rec *record.Record, filterBitmap *bitmap.FilterBitmap, idx int) (int, error) {
-	switch len(c.rpnStack) {
+func (c *ConditionImpl) filterForAnd(rec *record.Record, filterBitmap *bitmap.FilterBitmap, idx int, pending int) (int, error) {
+	switch pending {
 	case 0:
 		if idx < 1 {
 			return 0, errno.NewError(errno.ErrRPNIsNullForAnd)
@@ -804,6 +844,7 @@ func (c *ConditionImpl) filterForAnd(rec *record.Record, filterBitmap *bitmap.Fi
 			opt:     e1.rg.Opt,
 		})
 		c.rpnStack = c.rpnStack[:len(c.rpnStack)-1]
+		c.bitmapPos[idx] = len(c.rpnStack)
 	default:
 		e1, e2 := c.rpnStack[len(c.rpnStack)-1], c.rpnStack[len(c.rpnStack)-2]
 		col := rec.ColVals[e1.rg.Idx]
@@ -832,6 +873,7 @@ func (c *ConditionImpl) filterForAnd(rec *record.Record, filterBitmap *bitmap.Fi
 			opt:     e2.rg.Opt,
 		})
 		c.rpnStack = c.rpnStack[:len(c.rpnStack)-2]
+		c.bitmapPos[idx] = len(c.rpnStack)
 	}
 	return idx, nil
 }
